@@ -10,6 +10,17 @@ let () =
   try while true do
     let l = input_line stdin in
     match String.split_on_char ';' l with
+    | "A" :: ns :: rest ->
+        (* graphs with back-end declarations:  A ; n ; deps of 0..n-1 ; anti of 0..n-1 ; listing   -> the run of ModAnti.run2 true *)
+        let n = int_of_string ns in
+        let deps = Array.make (n + 1) [] and anti = Array.make (n + 1) [] in
+        List.iteri (fun i s -> if i < n then deps.(i) <- ints s else if i < 2 * n then anti.(i - n) <- ints s) rest;
+        let listing = ints (List.nth rest (2 * n)) in
+        let g m = let i = int_of_nat m in if i < n then deps.(i) else [] in
+        let a m = let i = int_of_nat m in if i < n then anti.(i) else [] in
+        (match run2 true (nat_of_int n) g a listing with
+         | None -> Printf.printf "ABORT\n"
+         | Some lg -> Printf.printf "%s\n" (String.concat " " (List.map ev lg)))
     | ns :: rest ->
         let n = int_of_string ns in
         let deps = Array.make (n + 1) [] in
